@@ -1,7 +1,9 @@
 """C07 — SSM serial optimiser: correspondence of Alg/SSM.v with stockpyl.ssm_serial.optimize_base_stock_levels
 (same grids and lead-time-demand tables, recomputed here exactly as the code does) + oracles on the implementation:
 evaluation mode, N = 1 vs newsvendor, exact top-down expected cost by enumeration of lead-time demands, brute-force
-search over level vectors, Shang-Song bracket, relabelling / parameter-shape / network-form invariance."""
+search over level vectors, Shang-Song bracket, relabelling / parameter-shape / network-form invariance; session stream: chains of closely
+related instances solved one after the other in one process (each chain in a process of its own), full oracle on every in-session result and
+in-session result = result of solving the instance alone in a fresh process."""
 import math, itertools, json, os, sys, subprocess
 from fractions import Fraction
 import numpy as np
